@@ -51,10 +51,12 @@ CHECKS = {
    text="Partial proof on the selection model: a strict sign change across the located root is classified as a crossing whatever the scale "
         "of the event function (only signs enter); a successfully located compatible crossing passes the direction mask; every monitored "
         "event whose probe passes the mask is reported unless a terminal event with an earlier-or-equal root cuts the step; non-terminal "
-        "events never hide each other (any number of events). NOT provable because false of the code: that the root finder reports success "
-        "for every sign change (absolute success test, C14's finding) - steep events are missed (known finding P12). The whole chain is "
-        "evaluated on the implementation: sign of g at consecutive recorded samples vs reported events.",
-   note="Trusted: Lean kernel, standard axioms, harness. Completeness is relative to the root finder's success flag.",
+        "events never hide each other (any number of events). The first link - the root finder reports success for every sign change - is "
+        "C14's lane_sign_change_success since the repair of P14/P12 in /repo (before it half of the crossings of a plain oscillator were "
+        "dropped for event functions of scale >= 10 at |t| >= 2). The whole chain is evaluated on the implementation: sign of g at "
+        "consecutive recorded samples vs reported events.",
+   note="Trusted: Lean kernel, standard axioms, harness. The composition root finder -> probes -> selection is not one theorem: the probes' "
+        "signs come from the dense output evaluated near the located root (measured).",
    technique="Lean 4 proof (completeness of sort+truncate) + per-step replay + sign-change oracle on recorded samples",
    design="5 (C07-C09)"),
  "C09": dict(
@@ -232,10 +234,13 @@ CHECKS = {
    text="Proof over Q for every function f (continuous or not), every bracket in either order and every tolerance, about a "
         "statement-by-statement Lean model of brentsroot and of one lane of brentsrootvec: the returned point is inside the bracket, a "
         "bracketed sign change stays bracketed (invariant f a * f b <= 0, |f b| <= |f a|), on regular exit the bracket is narrower than the "
-        "tolerance so the point is within tol of a sign change, success implies |f(root)| <= tol, a rejected bracket never claims success; "
-        "lane versions of in-bracket and success soundness. The model is tied to the code by bit-exact float64 replay of the "
-        "implementation's iterate sequences (root bits, flag, every evaluated point). The completeness clause (sign change => success "
-        "whatever the steepness) is false of the code: known findings P14/P14b, with a machine-checked counterexample in Findings/C14.",
+        "width tolerance xtol = max(tol, 4 eps max(|lo|,|hi|)) so the point is within xtol of a sign change, success implies |f(root)| <= tol "
+        "or a sign change within xtol of the returned point, a rejected bracket never claims success; the completeness clause - a sign "
+        "change over the bracket is reported as a success whatever the scale or steepness of f, unless the iteration cap stops the solver "
+        "(sign_change_success, lane_sign_change_success) - became provable with the repair of P14 in /repo; lane versions of all of these. "
+        "The model is tied to the code by bit-exact float64 replay of the implementation's iterate sequences (root bits, flag, every "
+        "evaluated point). Known finding P14b: the iteration cap (c is never advanced, so interpolation steps alternate with forced "
+        "bisections) stops the solver on jump discontinuities with the bracket still wider than xtol.",
    note="Trusted: Lean kernel, the 3 standard axioms, harness. Theorems are over exact rationals; float rounding inside the solver is covered "
         "only by the bit-exact replay on generated inputs. Vector solver modelled lane-wise (lanes are independent given the masks); "
         "vector/scalar agreement is checked on the implementation, not proved.",
